@@ -62,14 +62,27 @@ def check(ctx):
                'distances from the symmetry image of the site to the positions' if (site_based and ok_b) else
                'distances are measured from the site itself, not from its symmetry image')
     # selection threshold
-    for n in ast.walk(fi.node):
-        if isinstance(n, ast.Compare):
+    from .C04 import functions_under
+    flip = {'<': '>', '<=': '>=', '>': '<', '>=': '<='}
+    for f_ in functions_under(it, FEP, ctx.p):
+        for n in ast.walk(f_.node):
+            if not (isinstance(n, ast.Compare) or (isinstance(n, ast.Call) and norm_text(n.func).split('.')[-1] in
+                                                   ('less', 'less_equal', 'greater', 'greater_equal'))):
+                continue
             v = it.value_of(n)
-            if v is not None and v.cmp is not None and v.cmp[1].geo == ('DIST',):
-                o, l, r, lt, rt = v.cmp
-                ok = o in ('<', '<=') and r.is_param and r.is_param.endswith(':radius')
-                ctx.ob('R2', fi, n, True if ok else (False if o in ('>', '>=') else None),
-                       'points closer than the radius are selected' if ok else 'selection does not keep the points inside the radius')
+            if v is None or v.cmp is None:
+                continue
+            o, l, r = v.cmp[:3]
+            if l is None or r is None:
+                continue
+            if r.geo == ('DIST',) and l.geo != ('DIST',) and o in flip:
+                o, l, r = flip[o], r, l
+            if l.geo != ('DIST',):
+                continue
+            is_radius = bool(r.is_param and r.is_param.endswith(':radius')) or bool(r.deps and any(d.endswith('.radius') for d in r.deps))
+            ok = o in ('<', '<=') and is_radius
+            ctx.ob('R2', f_, n, True if ok else (False if (o in ('>', '>=') and is_radius) else None),
+                   'points closer than the radius are selected' if ok else 'selection does not keep the points inside the radius')
     sym = uniq_events(it, {'symop'}, inside)
     fwd = [e for e in sym if e['op'].opid == 'op']
     inv = [e for e in sym if e['op'].opid != 'op']
